@@ -10,173 +10,181 @@ use vh_lite::{read_cases, drive, drive_group, quiet_panics, Out};
 
 mod tc_right__topar;
 mod tc_left__gen;
-mod tc_left__perm1;
-mod tc_nonlin__par;
-mod tc_nonlin__str;
-mod mutual__run;
-mod mutual__runpar;
-mod mutual__strpar;
-mod scc_chain__ren;
-mod consts__ser;
-mod repeated__ren;
-mod three_dyn__to;
-mod three_dyn__strpar;
-mod conds__mrt;
-mod conds__srcpar;
-mod count_up__ser;
-mod multi_head__to;
-mod facts__pari;
-mod facts__init;
-mod facts__u64;
-mod opt_cols__src0;
-mod cartesian__par;
-mod same_gen__perm2;
-mod not_reorderable__pari;
-mod two_inputs__gen;
-mod two_inputs__perm1;
-mod wild__par;
-mod ternary__permpar;
-mod bound_mix__perm2;
-mod join_chain__pari;
-mod cond_simple_join__ser;
-mod zero_arity__ser;
-mod lag_right__pari;
-mod lag_right__u64;
-mod lag_three__par;
-mod lag_mid__perm2;
-mod lag_late_delta__pari;
-mod sp_dual__run;
-mod sp_dual__runpar;
-mod sp_weighted__pari;
-mod set_reach__ser;
-mod set_reach__src0;
-mod bset__par;
-mod cp__topar;
-mod bool_lat__par;
-mod lat_multi_improve__to;
-mod count_paths__to;
+mod tc_left__srcpar;
+mod tc_nonlin__ser;
+mod tc_nonlin__permpar;
+mod mutual__topar;
+mod mutual__redecl;
+mod mutual__str;
+mod scc_chain__perm1;
+mod diamond__par;
+mod repeated__perm1;
+mod three_dyn__par;
+mod three_dyn__str;
+mod conds__pari;
+mod conds__redecl;
+mod expr_args__ser;
+mod multi_head__ser;
+mod multi_head__permpar;
+mod facts__src1;
+mod facts__perm2;
+mod opt_cols__pari;
+mod opt_cols__redecl;
+mod same_gen__par;
+mod same_gen__str;
+mod two_inputs__pari;
+mod two_inputs__src2;
+mod two_inputs__ren;
+mod ternary__ser;
+mod ternary__u64;
+mod bound_mix__permpar;
+mod join_chain__perm2;
+mod cond_simple_join__pari;
+mod zero_arity__pari;
+mod lag_right__topar;
+mod lag_left__ser;
+mod lag_three__to;
+mod lag_mid__permpar;
+mod lag_late_delta__topar;
+mod sp_dual__ser;
+mod sp_dual__src0;
+mod sp_dual__perm1;
+mod sp_weighted__topar;
+mod set_reach__pari;
+mod set_reach__src2;
+mod bset__pari;
+mod opt_lat__ser;
+mod bool_lat__pari;
+mod lat_multi_improve__topar;
+mod lat_input__topar;
+mod lat_input__redecl;
+mod count_paths__topar;
 mod count_paths__redecl;
 mod neg_basic__topar;
-mod neg_basic__init;
-mod neg_basic__exppar;
-mod agg_depth__topar;
-mod agg_user__pari;
-mod agg_bound_mix__pari;
-mod agg_empty_rel__pari;
-mod disj__ser;
-mod disj__src0;
-mod disj__perm2;
-mod disj_nested__exp;
-mod rep_expr__par;
-mod multi_head_disj__exppar;
-mod mac_basic__pari;
-mod mac_basic__src2;
-mod mac_capture__par;
-mod mac_nested__exppar;
-mod mac_disj__pari;
-mod rnd_core_02__pari;
-mod rnd_core_05__par;
-mod rnd_core_08__ser;
-mod rnd_core_10__pari;
-mod rnd_core_13__par;
-mod rnd_core_16__ser;
-mod rnd_core_18__pari;
-mod rnd_core_21__par;
-mod rnd_core_24__ser;
-mod rnd_core_26__pari;
-mod rnd_core_29__par;
-mod rnd_agg_02__ser;
-mod rnd_agg_04__pari;
-mod rnd_agg_07__par;
-mod rnd_agg_10__ser;
-mod rnd_agg_12__pari;
-mod rnd_agg_15__par;
+mod neg_basic__redecl;
+mod neg_basic__exp;
+mod agg_depth__to;
+mod agg_user__par;
+mod agg_bound_mix__par;
+mod agg_empty_rel__par;
+mod agg_const_args__exppar;
+mod disj__gen;
+mod disj__srcpar;
+mod disj_nested__par;
+mod pat_args__exppar;
+mod multi_head_disj__pari;
+mod mac_basic__ser;
+mod mac_basic__src0;
+mod mac_basic__exp;
+mod mac_nested__par;
+mod mac_gensym_disj__exppar;
+mod rnd_core_01__pari;
+mod rnd_core_04__par;
+mod rnd_core_07__ser;
+mod rnd_core_09__pari;
+mod rnd_core_12__par;
+mod rnd_core_15__ser;
+mod rnd_core_17__pari;
+mod rnd_core_20__par;
+mod rnd_core_23__ser;
+mod rnd_core_25__pari;
+mod rnd_core_28__par;
+mod rnd_agg_01__ser;
+mod rnd_agg_03__pari;
+mod rnd_agg_06__par;
+mod rnd_agg_09__ser;
+mod rnd_agg_11__pari;
+mod rnd_agg_14__par;
 
 fn lookup(name: &str) -> fn() -> Box<dyn Driven> {
    match name {
       "tc_right__topar" => tc_right__topar::make,
       "tc_left__gen" => tc_left__gen::make,
-      "tc_left__perm1" => tc_left__perm1::make,
-      "tc_nonlin__par" => tc_nonlin__par::make,
-      "tc_nonlin__str" => tc_nonlin__str::make,
-      "mutual__run" => mutual__run::make,
-      "mutual__runpar" => mutual__runpar::make,
-      "mutual__strpar" => mutual__strpar::make,
-      "scc_chain__ren" => scc_chain__ren::make,
-      "consts__ser" => consts__ser::make,
-      "repeated__ren" => repeated__ren::make,
-      "three_dyn__to" => three_dyn__to::make,
-      "three_dyn__strpar" => three_dyn__strpar::make,
-      "conds__mrt" => conds__mrt::make,
-      "conds__srcpar" => conds__srcpar::make,
-      "count_up__ser" => count_up__ser::make,
-      "multi_head__to" => multi_head__to::make,
-      "facts__pari" => facts__pari::make,
-      "facts__init" => facts__init::make,
-      "facts__u64" => facts__u64::make,
-      "opt_cols__src0" => opt_cols__src0::make,
-      "cartesian__par" => cartesian__par::make,
-      "same_gen__perm2" => same_gen__perm2::make,
-      "not_reorderable__pari" => not_reorderable__pari::make,
-      "two_inputs__gen" => two_inputs__gen::make,
-      "two_inputs__perm1" => two_inputs__perm1::make,
-      "wild__par" => wild__par::make,
-      "ternary__permpar" => ternary__permpar::make,
-      "bound_mix__perm2" => bound_mix__perm2::make,
-      "join_chain__pari" => join_chain__pari::make,
-      "cond_simple_join__ser" => cond_simple_join__ser::make,
-      "zero_arity__ser" => zero_arity__ser::make,
-      "lag_right__pari" => lag_right__pari::make,
-      "lag_right__u64" => lag_right__u64::make,
-      "lag_three__par" => lag_three__par::make,
-      "lag_mid__perm2" => lag_mid__perm2::make,
-      "lag_late_delta__pari" => lag_late_delta__pari::make,
-      "sp_dual__run" => sp_dual__run::make,
-      "sp_dual__runpar" => sp_dual__runpar::make,
-      "sp_weighted__pari" => sp_weighted__pari::make,
-      "set_reach__ser" => set_reach__ser::make,
-      "set_reach__src0" => set_reach__src0::make,
-      "bset__par" => bset__par::make,
-      "cp__topar" => cp__topar::make,
-      "bool_lat__par" => bool_lat__par::make,
-      "lat_multi_improve__to" => lat_multi_improve__to::make,
-      "count_paths__to" => count_paths__to::make,
+      "tc_left__srcpar" => tc_left__srcpar::make,
+      "tc_nonlin__ser" => tc_nonlin__ser::make,
+      "tc_nonlin__permpar" => tc_nonlin__permpar::make,
+      "mutual__topar" => mutual__topar::make,
+      "mutual__redecl" => mutual__redecl::make,
+      "mutual__str" => mutual__str::make,
+      "scc_chain__perm1" => scc_chain__perm1::make,
+      "diamond__par" => diamond__par::make,
+      "repeated__perm1" => repeated__perm1::make,
+      "three_dyn__par" => three_dyn__par::make,
+      "three_dyn__str" => three_dyn__str::make,
+      "conds__pari" => conds__pari::make,
+      "conds__redecl" => conds__redecl::make,
+      "expr_args__ser" => expr_args__ser::make,
+      "multi_head__ser" => multi_head__ser::make,
+      "multi_head__permpar" => multi_head__permpar::make,
+      "facts__src1" => facts__src1::make,
+      "facts__perm2" => facts__perm2::make,
+      "opt_cols__pari" => opt_cols__pari::make,
+      "opt_cols__redecl" => opt_cols__redecl::make,
+      "same_gen__par" => same_gen__par::make,
+      "same_gen__str" => same_gen__str::make,
+      "two_inputs__pari" => two_inputs__pari::make,
+      "two_inputs__src2" => two_inputs__src2::make,
+      "two_inputs__ren" => two_inputs__ren::make,
+      "ternary__ser" => ternary__ser::make,
+      "ternary__u64" => ternary__u64::make,
+      "bound_mix__permpar" => bound_mix__permpar::make,
+      "join_chain__perm2" => join_chain__perm2::make,
+      "cond_simple_join__pari" => cond_simple_join__pari::make,
+      "zero_arity__pari" => zero_arity__pari::make,
+      "lag_right__topar" => lag_right__topar::make,
+      "lag_left__ser" => lag_left__ser::make,
+      "lag_three__to" => lag_three__to::make,
+      "lag_mid__permpar" => lag_mid__permpar::make,
+      "lag_late_delta__topar" => lag_late_delta__topar::make,
+      "sp_dual__ser" => sp_dual__ser::make,
+      "sp_dual__src0" => sp_dual__src0::make,
+      "sp_dual__perm1" => sp_dual__perm1::make,
+      "sp_weighted__topar" => sp_weighted__topar::make,
+      "set_reach__pari" => set_reach__pari::make,
+      "set_reach__src2" => set_reach__src2::make,
+      "bset__pari" => bset__pari::make,
+      "opt_lat__ser" => opt_lat__ser::make,
+      "bool_lat__pari" => bool_lat__pari::make,
+      "lat_multi_improve__topar" => lat_multi_improve__topar::make,
+      "lat_input__topar" => lat_input__topar::make,
+      "lat_input__redecl" => lat_input__redecl::make,
+      "count_paths__topar" => count_paths__topar::make,
       "count_paths__redecl" => count_paths__redecl::make,
       "neg_basic__topar" => neg_basic__topar::make,
-      "neg_basic__init" => neg_basic__init::make,
-      "neg_basic__exppar" => neg_basic__exppar::make,
-      "agg_depth__topar" => agg_depth__topar::make,
-      "agg_user__pari" => agg_user__pari::make,
-      "agg_bound_mix__pari" => agg_bound_mix__pari::make,
-      "agg_empty_rel__pari" => agg_empty_rel__pari::make,
-      "disj__ser" => disj__ser::make,
-      "disj__src0" => disj__src0::make,
-      "disj__perm2" => disj__perm2::make,
-      "disj_nested__exp" => disj_nested__exp::make,
-      "rep_expr__par" => rep_expr__par::make,
-      "multi_head_disj__exppar" => multi_head_disj__exppar::make,
-      "mac_basic__pari" => mac_basic__pari::make,
-      "mac_basic__src2" => mac_basic__src2::make,
-      "mac_capture__par" => mac_capture__par::make,
-      "mac_nested__exppar" => mac_nested__exppar::make,
-      "mac_disj__pari" => mac_disj__pari::make,
-      "rnd_core_02__pari" => rnd_core_02__pari::make,
-      "rnd_core_05__par" => rnd_core_05__par::make,
-      "rnd_core_08__ser" => rnd_core_08__ser::make,
-      "rnd_core_10__pari" => rnd_core_10__pari::make,
-      "rnd_core_13__par" => rnd_core_13__par::make,
-      "rnd_core_16__ser" => rnd_core_16__ser::make,
-      "rnd_core_18__pari" => rnd_core_18__pari::make,
-      "rnd_core_21__par" => rnd_core_21__par::make,
-      "rnd_core_24__ser" => rnd_core_24__ser::make,
-      "rnd_core_26__pari" => rnd_core_26__pari::make,
-      "rnd_core_29__par" => rnd_core_29__par::make,
-      "rnd_agg_02__ser" => rnd_agg_02__ser::make,
-      "rnd_agg_04__pari" => rnd_agg_04__pari::make,
-      "rnd_agg_07__par" => rnd_agg_07__par::make,
-      "rnd_agg_10__ser" => rnd_agg_10__ser::make,
-      "rnd_agg_12__pari" => rnd_agg_12__pari::make,
-      "rnd_agg_15__par" => rnd_agg_15__par::make,
+      "neg_basic__redecl" => neg_basic__redecl::make,
+      "neg_basic__exp" => neg_basic__exp::make,
+      "agg_depth__to" => agg_depth__to::make,
+      "agg_user__par" => agg_user__par::make,
+      "agg_bound_mix__par" => agg_bound_mix__par::make,
+      "agg_empty_rel__par" => agg_empty_rel__par::make,
+      "agg_const_args__exppar" => agg_const_args__exppar::make,
+      "disj__gen" => disj__gen::make,
+      "disj__srcpar" => disj__srcpar::make,
+      "disj_nested__par" => disj_nested__par::make,
+      "pat_args__exppar" => pat_args__exppar::make,
+      "multi_head_disj__pari" => multi_head_disj__pari::make,
+      "mac_basic__ser" => mac_basic__ser::make,
+      "mac_basic__src0" => mac_basic__src0::make,
+      "mac_basic__exp" => mac_basic__exp::make,
+      "mac_nested__par" => mac_nested__par::make,
+      "mac_gensym_disj__exppar" => mac_gensym_disj__exppar::make,
+      "rnd_core_01__pari" => rnd_core_01__pari::make,
+      "rnd_core_04__par" => rnd_core_04__par::make,
+      "rnd_core_07__ser" => rnd_core_07__ser::make,
+      "rnd_core_09__pari" => rnd_core_09__pari::make,
+      "rnd_core_12__par" => rnd_core_12__par::make,
+      "rnd_core_15__ser" => rnd_core_15__ser::make,
+      "rnd_core_17__pari" => rnd_core_17__pari::make,
+      "rnd_core_20__par" => rnd_core_20__par::make,
+      "rnd_core_23__ser" => rnd_core_23__ser::make,
+      "rnd_core_25__pari" => rnd_core_25__pari::make,
+      "rnd_core_28__par" => rnd_core_28__par::make,
+      "rnd_agg_01__ser" => rnd_agg_01__ser::make,
+      "rnd_agg_03__pari" => rnd_agg_03__pari::make,
+      "rnd_agg_06__par" => rnd_agg_06__par::make,
+      "rnd_agg_09__ser" => rnd_agg_09__ser::make,
+      "rnd_agg_11__pari" => rnd_agg_11__pari::make,
+      "rnd_agg_14__par" => rnd_agg_14__par::make,
       _ => panic!("no such program variant in this shard: {}", name),
    }
 }
